@@ -23,11 +23,15 @@ import (
 	"context"
 	"errors"
 	"fmt"
+	"os"
+	"runtime"
+	"runtime/debug"
 	"sort"
 	"strings"
 	"sync"
 	"testing"
 	"testing/synctest"
+	"time"
 
 	quic "github.com/refraction-networking/uquic"
 	"github.com/refraction-networking/uquic/internal/protocol"
@@ -337,14 +341,11 @@ func newRunner(t *testing.T, r *vh.Rand) vh.Runner {
 			for op := range rn.reqs {
 				rn.resps <- b.exec(op)
 			}
-			if !b.dead {
-				b.shutdown()
-			} else {
-				for _, c := range b.callers {
-					c.cancel()
-				}
-				synctest.Wait()
+			if b.dead && b.sm != nil {
+				// a panic left an incoming map's write lock held; goroutines may be queued on it
+				b.sm.VerifForceUnlock()
 			}
+			b.shutdown()
 		})
 	}()
 	return rn
@@ -352,12 +353,24 @@ func newRunner(t *testing.T, r *vh.Rand) vh.Runner {
 
 func (rn *runner) Close() {
 	close(rn.reqs)
-	<-rn.done
+	select {
+	case <-rn.done:
+	case <-time.After(60 * time.Second):
+		fmt.Fprintln(os.Stderr, "smap driver: blocked callers did not return within 60s of tearing the case down; aborting")
+		os.Exit(4)
+	}
 }
 
 func (rn *runner) Exec(op string) string {
 	rn.reqs <- op
-	res := <-rn.resps
+	var res string
+	select {
+	case res = <-rn.resps:
+	case <-time.After(60 * time.Second):
+		// never hang the check: a goroutine is stuck (e.g. on a mutex a modified /repo left locked)
+		fmt.Fprintf(os.Stderr, "smap driver: operation %q did not reach quiescence within 60s; aborting\n", op)
+		os.Exit(4)
+	}
 	rn.observe(op, res)
 	return res
 }
@@ -775,6 +788,23 @@ func (rn *runner) GenOp(r *vh.Rand, i int) string {
 	}
 }
 
+// memWatchdog ends the process if the heap grows beyond what any legitimate case needs, so that a
+// modified /repo (e.g. a disabled limit check) can never exhaust the machine.
+func memWatchdog() {
+	const limit = 1 << 30
+	var ms runtime.MemStats
+	for {
+		time.Sleep(20 * time.Millisecond)
+		runtime.ReadMemStats(&ms)
+		if ms.HeapAlloc > limit {
+			fmt.Fprintf(os.Stderr, "smap driver: heap %d MiB exceeds the 1 GiB guard; aborting\n", ms.HeapAlloc>>20)
+			os.Exit(3)
+		}
+	}
+}
+
 func TestDriver(t *testing.T) {
+	debug.SetMemoryLimit(1 << 30)
+	go memWatchdog()
 	vh.Main(t, "smap", func(r *vh.Rand) vh.Runner { return newRunner(t, r) })
 }
